@@ -66,6 +66,7 @@ type E2Exec struct {
 	mu       sync.Mutex
 	waiting  []*e2Wait // held callers (a thread may have several: its own call and calls of goroutines it started)
 	over     bool
+	free     bool
 	seq      int64
 	finished []bool
 	panics   []string
@@ -88,7 +89,7 @@ func (x *E2Exec) arrive(thread, method string) {
 		return
 	}
 	x.mu.Lock()
-	if x.over { // the execution is over: let stragglers through
+	if x.over || x.free { // the execution is over (or runs free for the race detector): let callers through
 		x.mu.Unlock()
 		return
 	}
@@ -146,11 +147,15 @@ func (x *E2Exec) ScheduleText() string {
 
 const e2MaxPoints = 400
 
+// freeRunning switches the scheduler off (C15race): threads run as the Go scheduler lets them.
+var freeRunning bool
+
 // runE2 runs one execution: the choices of prefix, then choice 0 at every later point.
 // setGate installs the scheduler's gate into the environment the threads talk to.
 func runE2(threads []E2Thread, setGate func(func(thread, method string)), prefix []int) *E2Exec {
 	x := &E2Exec{finished: make([]bool, len(threads))}
 	setGate(x.arrive)
+	x.free = prefix == nil && freeRunning
 	for i, th := range threads {
 		ctx, cancel := context.WithCancel(metadata.AppendToOutgoingContext(context.Background(), "verif-thread", strconv.Itoa(i)))
 		x.threads = append(x.threads, &E2T{ID: i, Name: th.Name, x: x, ctx: ctx, cancel: cancel})
